@@ -128,6 +128,7 @@ def peer_connection_ownership(ctx: Ctx, rule: str):
     ctx.rule(rule, "Peer.connection is set only when unset and cleared only by its owner",
              floor=3)
     at_cache = {}
+    _resolver_key_stable(ctx, rule, nc)
     for f in nc.all_funcs:
         sets = []
         for n in A.walk_no_nested(f.node):
@@ -192,6 +193,38 @@ def peer_connection_ownership(ctx: Ctx, rule: str):
                              f"connection: the earlier connection loses its owner record; when "
                              f"the newer one closes the peer counts as disconnected")
 
+
+
+def _resolver_key_stable(ctx: Ctx, rule: str, nc):
+    """_find_connection_peer resolves a connection by `node_name` first.  That name is fixed when
+    the connection is created for a peer (_connect_to_peer: the dialled peer's own name, next to
+    `peer.connection = conn`) or when an inbound peer identifies itself (receive_cer); a later
+    store makes the connection resolve to ANOTHER configured peer: it is attached to that one as
+    well, and the removal cleans up only one of the two."""
+    cons = "conn.node_name:fixed-at-creation"
+    ctx.inst(cons, rule=rule)
+    for f in nc.all_funcs:
+        for n in A.walk_no_nested(f.node):
+            if not isinstance(n, (ast.Assign, ast.AugAssign, ast.AnnAssign)):
+                continue
+            for t in A.store_targets(n):
+                if not (isinstance(t, ast.Attribute) and t.attr == "node_name"):
+                    continue
+                recv = A.dotted(t.value)
+                if recv in ("self", "peer") or recv.endswith("peer"):
+                    continue
+                val = ast.unparse(n.value) if getattr(n, "value", None) is not None else ""
+                ok = (f.name == "_connect_to_peer" and val.endswith(".node_name")) or f.name == "receive_cer"
+                if not ok:
+                    ctx.fail(cons, f.loc(n), f"`{ast.unparse(n)[:80]}` in {f.qualname} changes the name a "
+                             f"live connection resolves to its peer by (_find_connection_peer looks "
+                             f"at node_name first): a connection dialled for peer A that advertises "
+                             f"configured peer B becomes B's connection while remaining A's; on "
+                             f"close only B is cleaned up and A references a closed connection for "
+                             f"ever (never dialled again)", rule=rule,
+                             expected="node_name is stored by _connect_to_peer (the dialled peer's "
+                                      "name) and receive_cer (inbound identification) only",
+                             observed=f"{f.qualname}: {val[:60]}")
 
 
 def disconnect_record(ctx: Ctx, rule: str):
